@@ -37,6 +37,8 @@ type vc13Reader struct {
 	mu    sync.Mutex
 	reads []string // Coq triples
 	fail  bool
+	trace bool       // also keep every (offset, length) read
+	spans [][2]int64 // with trace
 }
 
 func (r *vc13Reader) ReadAt(p []byte, off int64) (int, error) {
@@ -51,6 +53,9 @@ func (r *vc13Reader) ReadAt(p []byte, off int64) (int, error) {
 		}
 	}
 	r.mu.Lock()
+	if r.trace && len(r.spans) < 4096 {
+		r.spans = append(r.spans, [2]int64{off, int64(len(p))})
+	}
 	if len(r.reads) < 64 {
 		r.reads = append(r.reads, fmt.Sprintf("(%d%%N, %d%%N, %s)", off, len(p), vh.CoqBool(err == nil)))
 	}
@@ -91,6 +96,42 @@ func (x *vc13Run) observe(kind string, cut int, size int, key string, complete, 
 			o = "OError"
 		}
 		x.cases.Add(fmt.Sprintf("(%s, %s)", vh.CoqList(rd.reads), o))
+	}
+}
+
+// directed: for every read that the lookup of key i performs on the COMPLETE file (recorded), the file is cut inside
+// that very read (at its first byte, after its first byte, before its last byte) and key i is looked up again on the
+// truncated copy, opened afresh. These are the cuts at which a reader that tolerates a short read would answer from
+// partial bytes; a random sample of a large file hardly ever lands on them.
+func (x *vc13Run) directed(kind string, data []byte, keyNames []string, answer func(r *vc13Reader, i int) (ans string, opened bool)) {
+	maxKeys := 40
+	if vh.Thorough() {
+		maxKeys = 400
+	}
+	for i := range keyNames {
+		if i >= maxKeys && i < len(keyNames)-2 {
+			continue // the first keys and the last two (the absent ones)
+		}
+		fr := &vc13Reader{data: data, trace: true}
+		complete, _ := answer(fr, i)
+		seen := map[int]bool{}
+		for _, sp := range fr.spans {
+			lo, hi := int(sp[0]), int(sp[0]+sp[1])
+			for _, cut := range []int{lo, lo + 1, hi - 1} {
+				if cut <= 0 || cut >= len(data) || cut < lo || cut >= hi || seen[cut] {
+					continue
+				}
+				seen[cut] = true
+				r := &vc13Reader{data: data[:cut]}
+				got, opened := answer(r, i)
+				rr := r
+				if !opened {
+					rr = nil
+				}
+				x.observe(kind, cut, len(data), keyNames[i], complete, got, rr)
+				x.rep.Count("directed-cuts:" + kind)
+			}
+		}
 	}
 }
 
@@ -212,6 +253,14 @@ func TestVerif_C13(t *testing.T) {
 				}
 			}
 		}
+		var names []string
+		for _, k := range keys {
+			names = append(names, k.String())
+		}
+		x.directed("cid-to-offset-and-size", data, names, func(r *vc13Reader, i int) (string, bool) {
+			ix := open(r)
+			return look(ix, keys[i]), ix != nil
+		})
 		rep.Count(fmt.Sprintf("file:cid-to-offset-and-size bytes=%d keys=%d", len(data), len(keys)))
 	}
 	{
@@ -255,6 +304,14 @@ func TestVerif_C13(t *testing.T) {
 				x.observe("slot-to-cid", cut, len(data), fmt.Sprint(k), look(full, k), got, rr)
 			}
 		}
+		var names []string
+		for _, k := range keys {
+			names = append(names, fmt.Sprint(k))
+		}
+		x.directed("slot-to-cid", data, names, func(r *vc13Reader, i int) (string, bool) {
+			ix := open(r)
+			return look(ix, keys[i]), ix != nil
+		})
 		rep.Count(fmt.Sprintf("file:slot-to-cid bytes=%d keys=%d", len(data), len(keys)))
 	}
 	var sigs []solana.Signature
@@ -302,6 +359,14 @@ func TestVerif_C13(t *testing.T) {
 				x.observe("sig-to-cid", cut, len(data), k.String()[:12], look(full, k), got, rr)
 			}
 		}
+		var names []string
+		for _, k := range keys {
+			names = append(names, k.String()[:12])
+		}
+		x.directed("sig-to-cid", data, names, func(r *vc13Reader, i int) (string, bool) {
+			ix := open(r)
+			return look(ix, keys[i]), ix != nil
+		})
 		rep.Count(fmt.Sprintf("file:sig-to-cid bytes=%d keys=%d", len(data), len(keys)))
 	}
 	// ---------------- sig-exists
@@ -362,6 +427,14 @@ func TestVerif_C13(t *testing.T) {
 				x.observe("sig-exists", cut, len(data), k.String()[:12], complete[k.String()], got, rr)
 			}
 		}
+		var names []string
+		for _, k := range keys {
+			names = append(names, k.String()[:12])
+		}
+		x.directed("sig-exists", data, names, func(r *vc13Reader, i int) (string, bool) {
+			ix := open(r)
+			return look(ix, keys[i]), ix != nil
+		})
 		rep.Count(fmt.Sprintf("file:sig-exists bytes=%d header=%d keys=%d", len(data), hdrEnd, len(keys)))
 	}
 	// ---------------- slot-to-blocktime (exact-size read as in NewEpochFromConfig)
